@@ -205,9 +205,9 @@ impl LogStore for RocksDBLogStore {
             .write_opt(&batch, &write_opts)
             .map_err(|e| StorageError::DbError(e.to_string()))?;
 
-        if max_index > 0 {
-            self.last_index.store(max_index, Ordering::SeqCst);
-        }
+        // A batch may re-write or lie below the current end: last_index is the greatest stored
+        // index, not the greatest index of this batch.
+        self.last_index.fetch_max(max_index, Ordering::SeqCst);
 
         Ok(())
     }
